@@ -7,12 +7,12 @@ PATCH="$(readlink -f "$1")"; shift
 IDS="$@"
 cd "$(dirname "$0")/.."
 [ -z "$IDS" ] && IDS=$(python3 -c "import json;print(' '.join(c['property_id'] for c in json.load(open('MANIFEST.json'))['checks']))")
-W=/tmp/w1/repo
+W=${SEED_W:-/tmp/w1/repo}
 export GOFLAGS=-mod=mod GOPROXY=off GOSUMDB=off GOTOOLCHAIN=local
-if [ ! -d "$W" ]; then mkdir -p /tmp/w1; git -C /repo worktree add -q --detach "$W" main; fi
+if [ ! -d "$W" ]; then mkdir -p "$(dirname "$W")"; git -C /repo worktree add -q --detach "$W" main; fi
 git -C "$W" checkout -q --detach main && git -C "$W" checkout -q -- . && git -C "$W" clean -qfd
 git -C "$W" apply "$PATCH" || { echo "PATCH DOES NOT APPLY"; exit 2; }
-if (cd "$W" && go build ./... && go test -vet=off -count=1 ./... >/tmp/w1/suite.log 2>&1); then echo "suite: pass"; else echo "suite: FAIL (see /tmp/w1/suite.log)"; fi
+if (cd "$W" && go build ./... && go test -vet=off -count=1 ./... >"$W.suite.log" 2>&1); then echo "suite: pass"; else echo "suite: FAIL (see $W.suite.log)"; fi
 caught=""
 for id in $IDS; do
   out=$(VERIF_REPO="$W" ./check $id quick 2>&1); rc=$?
